@@ -1,7 +1,10 @@
 package checks
 
 import (
+	"fmt"
 	"go/ast"
+	"go/token"
+	"go/types"
 
 	"bmverif/internal/core"
 	"golang.org/x/tools/go/packages"
@@ -11,7 +14,7 @@ func init() {
 	register("C02", checkC02)
 	describe("C02", Meta{
 		Technique: "index-space (units-of-measure) inference over the type-checked AST: every int used to index the bond tables, stored into Links or compared is given the index space of its definition (range key/value, len, lookup, Map_to-guarded Res_id/Ext_id) and must agree with the space the container is declared to use",
-		Claim:     "Decides one structural clause of C02: both back-ends (VM.Step and the Verilog top-level generator) and every helper that walks Links / Internal_inputs / Internal_outputs use internal-input indices, internal-output indices, external-port indices and processor indices only in the tables of the matching space, and a Map_to case names an endpoint kind that can occur in the list being walked. A swapped Links index or a transfer guarded by the wrong endpoint kind is reported. Stream equality HDL vs. simulator, timing and the AND of received lines are not decided.",
+		Claim:     "Decides one structural clause of C02: both back-ends (VM.Step and the Verilog top-level generator) and every helper that walks Links / Internal_inputs / Internal_outputs use internal-input indices, internal-output indices, external-port indices and processor indices only in the tables of the matching space, and a Map_to case names an endpoint kind that can occur in the list being walked. A swapped Links index or a transfer guarded by the wrong endpoint kind is reported. LINKWALK: for every per-endpoint table the VM fills while ranging over Links, at least one walk moves every link (conditions on the link only), as the generated top level does with one assign per bond. Stream equality HDL vs. simulator, timing and the AND of received lines are not decided.",
 		Note:      "Index spaces are declared per struct field in the checker (read off the data model's own comments); locals with two different definitions are ignored (no obligation). Flow-insensitive per function.",
 		DesignRef: "DESIGN.md §2 C02",
 	})
@@ -32,4 +35,173 @@ func checkC02(r *core.Run) {
 	e.run(ikScope, func(pk *packages.Package, fd *ast.FuncDecl) bool {
 		return !e.mentionsFieldOf(pk, fd, "pkg/bondmachine.SimDrive.", "pkg/bondmachine.SimReport.") && !e.storesTopology(pk, fd)
 	})
+	c02LinkWalk(r, prog)
+}
+
+// c02LinkWalk (C02/LINKWALK): the simulator moves data, valid and received along EVERY bond. In each
+// `for i, j := range Links` of the VM's step functions, a statement that stores into a per-endpoint
+// table may only be conditioned on the link itself (the loop variables, locals derived from them,
+// constants): a condition that reads the machine's content (a struct field such as Map_to) makes the
+// walk skip a class of bonds, which the generated top level — one assign per link — does not.
+// Decided per (function, table): at least one walk must move every link into the table; a violation
+// is reported only when every walk storing into the table is content-conditioned.
+func c02LinkWalk(r *core.Run, prog *core.Program) {
+	pk := prog.Pkg("pkg/bondmachine")
+	if pk == nil {
+		return
+	}
+	info := pk.TypesInfo
+	nWalks, nStores := 0, 0
+	seenT := map[string]bool{}
+	var order []string
+	full := map[string]string{}        // table -> position of a walk that moves every link
+	filtered := map[string][2]string{} // table -> (content condition, position) of a filtered walk
+	core.FuncDecls(pk, func(_ *ast.File, fd *ast.FuncDecl) {
+		if core.RecvTypeName(info, fd) != "VM" {
+			return
+		}
+		ast.Inspect(fd.Body, func(n ast.Node) bool {
+			rs, ok := n.(*ast.RangeStmt)
+			if !ok {
+				return true
+			}
+			f := core.FieldOf(info, rs.X)
+			if f == nil || f.Name() != "Links" || !core.IsField(f, "pkg/bondmachine", "Links") {
+				return true
+			}
+			nWalks++
+			// content-dependent condition?
+			contentCond := func(e ast.Expr) string {
+				bad := ""
+				ast.Inspect(e, func(k ast.Node) bool {
+					switch x := k.(type) {
+					case *ast.SelectorExpr:
+						if fv := core.FieldOf(info, x); fv != nil && bad == "" {
+							bad = types.ExprString(x)
+						}
+					case *ast.CallExpr:
+						if tv, ok := info.Types[x.Fun]; ok && tv.IsType() {
+							return true
+						}
+						if id, ok := x.Fun.(*ast.Ident); ok && (id.Name == "len" || id.Name == "int") {
+							return true
+						}
+						if bad == "" {
+							bad = types.ExprString(x)
+						}
+					}
+					return true
+				})
+				return bad
+			}
+			// walk the loop body keeping the stack of governing conditions
+			type gov struct {
+				cond ast.Expr
+				pos  token.Pos
+			}
+			k := 0
+			var walk func(list []ast.Stmt, govs []gov)
+			endsInJump := func(b *ast.BlockStmt) bool {
+				if len(b.List) == 0 {
+					return false
+				}
+				switch x := b.List[len(b.List)-1].(type) {
+				case *ast.BranchStmt:
+					return x.Tok == token.CONTINUE || x.Tok == token.BREAK
+				case *ast.ReturnStmt:
+					return true
+				}
+				return false
+			}
+			walk = func(list []ast.Stmt, govs []gov) {
+				for _, st := range list {
+					switch x := st.(type) {
+					case *ast.IfStmt:
+						g2 := append(append([]gov{}, govs...), gov{x.Cond, x.Pos()})
+						walk(x.Body.List, g2)
+						switch el := x.Else.(type) {
+						case *ast.BlockStmt:
+							walk(el.List, g2)
+						case *ast.IfStmt:
+							walk([]ast.Stmt{el}, g2)
+						}
+						if endsInJump(x.Body) {
+							govs = g2 // the rest of the block runs only when the condition is false
+						}
+					case *ast.BlockStmt:
+						walk(x.List, govs)
+					case *ast.SwitchStmt:
+						g2 := govs
+						if x.Tag != nil {
+							g2 = append(append([]gov{}, govs...), gov{x.Tag, x.Pos()})
+						}
+						for _, c := range x.Body.List {
+							cc := c.(*ast.CaseClause)
+							g3 := g2
+							if x.Tag == nil {
+								for _, e := range cc.List {
+									g3 = append(append([]gov{}, g3...), gov{e, cc.Pos()})
+								}
+							}
+							walk(cc.Body, g3)
+						}
+					case *ast.ForStmt:
+						walk(x.Body.List, govs)
+					case *ast.RangeStmt:
+						walk(x.Body.List, govs)
+					case *ast.AssignStmt:
+						for _, l := range x.Lhs {
+							ie, ok := ast.Unparen(l).(*ast.IndexExpr)
+							if !ok {
+								continue
+							}
+							// per-endpoint table: a field of the VM, or a local map keyed by an endpoint index
+							isTable := core.FieldOf(info, ie.X) != nil
+							if id, ok := ast.Unparen(ie.X).(*ast.Ident); ok {
+								if _, isMap := info.TypeOf(id).Underlying().(*types.Map); isMap {
+									if b, ok := info.TypeOf(l).Underlying().(*types.Basic); !ok || b.Info()&types.IsString == 0 {
+										isTable = true
+									}
+								}
+							}
+							if !isTable {
+								continue
+							}
+							k++
+							nStores++
+							bad, badPos := "", token.NoPos
+							for _, g := range govs {
+								if b := contentCond(g.cond); b != "" && bad == "" {
+									bad, badPos = b, g.pos
+								}
+							}
+							tk := core.FuncKey(pk, fd) + ":" + types.ExprString(ie.X)
+							if !seenT[tk] {
+								seenT[tk] = true
+								order = append(order, tk)
+							}
+							if bad == "" {
+								full[tk] = prog.Pos(x.Pos())
+							} else if _, dup := filtered[tk]; !dup {
+								filtered[tk] = [2]string{bad, prog.Pos(badPos)}
+							}
+						}
+					}
+				}
+			}
+			walk(rs.Body.List, nil)
+			return true
+		})
+	})
+	for _, tk := range order {
+		inst := "C02/LINKWALK:" + tk
+		if pos, ok := full[tk]; ok {
+			r.OK("C02/LINKWALK", inst, pos, "a walk over Links moves every bond into this table (conditioned on the link only)")
+			continue
+		}
+		f := filtered[tk]
+		r.Violation("C02/LINKWALK", inst, f[1], fmt.Sprintf("every walk over Links that transfers into %s does so only when a condition on the machine's content holds (%s): bonds of the excluded kind are never moved by the simulator, while the generated top level wires every link unconditionally (one assign per bond) — the two back-ends disagree on those bonds", tk, f[0]))
+	}
+	r.Count("vm_link_walks", nWalks)
+	r.Count("vm_link_walk_transfers", nStores)
 }
